@@ -1427,7 +1427,7 @@ func init() {
 		genC26, "C26.")
 	seqProp("C23", "one case = FSINFO followed by READ and WRITE with counts drawn from {1, preferred, max-1, max} of the advertised limits, for a per-run configured TransferSize (1..65536 and default; in 40% of the runs 1, 2, 3, 5, 1001, 1023, 4097, 65535 or values around and above the 1 MiB record limit) optionally changed at runtime between FSINFO and the I/O, or before the FSINFO (0, -1, 1, 1001, 4096, 2 MiB through UpdateExportOptions or UpdateTuningOptions), on a full record-marked connection (the 1 MiB record limit is in play); oracle: READ before EOF returns >= 1 correct byte, WRITE is accepted (never NFS3ERR_INVAL, never a dropped connection) and reports its count, rtpref<=rtmax, wtpref<=wtmax; non-trivial = at least one FSINFO-driven I/O; distinct by event digest",
 		genC23, "C23.")
-	seqProp("C05", "one case = a history of 10-50 handle-issuing calls (MNT, LOOKUP, CREATE, MKDIR, SYMLINK, READDIRPLUS) over 2-50 paths with the handle table limit drawn from {1,2,3,5,10,16,32}, each returned handle used at once in GETATTR, plus re-use of older handle values; oracle: the immediately following GETATTR succeeds and every backend call it makes is for the path the handle was issued for; accessor check after every operation: live handle count <= limit and every live path has exactly one handle value; 25% of the cases instead drive the real FileHandleMap directly: 2-4 tasks issuing 2-7 Allocate/Get/Release/ReleaseAll calls over 1-4 paths with limit 1..100 under the seeded scheduler (also with -race), one atomic snapshot of both maps after every call (ids and paths in bijection, count <= limit, an issued value denotes its path); non-trivial = at least 2 eviction rounds (request histories) or >= 4 calls from >= 2 tasks (direct); distinct by event digest",
+	seqProp("C05", "one case = a history of 10-50 handle-issuing calls (MNT, LOOKUP, CREATE, MKDIR, SYMLINK, READDIRPLUS) over 2-50 paths with the handle table limit drawn from {1,2,3,5,10,16,32}, each returned handle used at once in GETATTR, plus re-use of older handle values; oracle: the immediately following GETATTR succeeds and every backend call it makes is for the path the handle was issued for; accessor check after every operation: live handle count <= limit and every live path has exactly one handle value; 25% of the cases instead drive the real FileHandleMap directly: 2-4 tasks issuing 2-7 Allocate/Get/Release/ReleaseAll calls over 1-4 paths with limit 1..100 under the seeded scheduler (also with -race), one atomic snapshot of both maps after every call (ids and paths in bijection, count <= limit, an issued value denotes its path), or (a third of the direct cases) one task running a long history of 3-8 x limit Allocate/Release/Get/ReleaseAll calls over 2 x limit + 5..25 paths with limit 1..50, so that the table overflows many times while freed ids are being reused (every returned handle must be live and denote its path at once); non-trivial = at least 2 eviction rounds (request histories) or >= 4 calls from >= 2 tasks (direct); distinct by event digest",
 		genC05("C05"), "C05.")
 	seqProp("C06", "one case = as C05 plus Unexport/re-mount and REMOVE in mid-history, with requests re-using every previously issued handle value; oracle: a request using a handle value either fails (NFS3ERR_STALE/BADHANDLE/NOENT) or every backend call it makes is for the path that value was FIRST issued for; probe handle_value_reissued_for_other_path counts the enabling condition; non-trivial = at least one old handle re-used after an eviction round; distinct by event digest",
 		genC05("C06"), "C06.", "C05.")
